@@ -46,6 +46,20 @@ Pages(P, key, limit, tok, unixZero, D, fuel) ==
         IF Len(pg) < limit THEN <<pg>>                                   \* short page: no token
         ELSE <<pg>> \o Pages(P, key, limit, TokOf(key, pg[Len(pg)]), unixZero, D, fuel - 1)
 
+(* the same page sequence computed on the already ordered list (a filter keeps the order): used by
+   Trace_Paging on large worlds; PagesLEquiv checks the equivalence in leg S *)
+AfterTokL(fl, key, tok, unixZero, D) ==
+   IF tok = NoTok \/ Rejected(tok, unixZero, D) THEN fl
+   ELSE SelectSeq(fl, LAMBDA p : \/ TLess(key[p], tok[1])
+                                 \/ /\ key[p] = tok[1] /\ "NoTieBreak" \notin D
+                                    /\ (p < tok[2] \/ ("TieBreakLeq" \in D /\ p = tok[2])))
+RECURSIVE PagesL(_, _, _, _, _, _, _)
+PagesL(fl, key, limit, tok, unixZero, D, fuel) ==
+   IF fuel = 0 THEN <<>>
+   ELSE LET pg == Prefix(AfterTokL(fl, key, tok, unixZero, D), limit) IN
+        IF Len(pg) < limit THEN <<pg>>
+        ELSE <<pg>> \o PagesL(fl, key, limit, TokOf(key, pg[Len(pg)]), unixZero, D, fuel - 1)
+
 (* property level: what any correct paging must look like *)
 GoodPaging(pages, more, P, key, limit) ==
    /\ ~more                                                              \* the token chain ended
@@ -99,6 +113,8 @@ Fuel == Cardinality(Pn) + 2
 ExactlyOnce == Complete => \A limit \in 1..MaxLimit :
    LET ps == Pages(match, time, limit, NoTok, UnixZero, Deviations, Fuel) IN
    GoodPaging(ps, Len(ps) = Fuel /\ Len(ps[Len(ps)]) = limit, match, time, limit)
+PagesLEquiv == Complete => \A limit \in 1..MaxLimit, D \in {{}, {"UnsignedToken"}, {"NoTieBreak"}} :
+   PagesL(Full(match, time), time, limit, NoTok, UnixZero, D, Fuel) = Pages(match, time, limit, NoTok, UnixZero, D, Fuel)
 PageIsNextChunk == Complete => \A limit \in 1..MaxLimit, p \in match :
    LET full == Full(match, time)
        i == CHOOSE i \in 1..Len(full) : full[i] = p
